@@ -1390,8 +1390,47 @@ impl Scenario<'_> {
         self.finish_session(p).await
     }
 
+    /// A token that is presented while it is still valid and again, on a new session, after it has
+    /// expired (beyond the leeway): the second presentation must be refused like any expired token.
+    async fn aging_token_first(&mut self) -> Result<(String, u64), Stop> {
+        let (token, exp) = c15_jwt::mint_aging(&self.env.key, &Grants::everything(), 3).map_err(Stop::Inconclusive)?;
+        let mut p = self.open("aging").await?;
+        let answer = self.send_token(&mut p, &token, "aging, first presentation").await?;
+        self.stats.count(match &answer {
+            Some(m) if kind_of(m) == Some("authorized") => "aging tokens accepted while valid",
+            _ => "aging tokens refused at the first presentation",
+        });
+        self.finish_session(p).await?;
+        Ok((token, exp))
+    }
+
+    async fn aging_token_second(&mut self, token: &str, exp: u64) -> Result<(), Stop> {
+        // wall-clock time is the input here (the token's own clock), not the verdict
+        while c15_jwt::now() <= exp + 62 {
+            tokio::time::sleep(Duration::from_millis(200)).await;
+        }
+        let mut p = self.open("aging").await?;
+        let answer = self.send_token(&mut p, token, "aging, presented again after its expiry").await?;
+        self.stats.count("aging tokens presented again after their expiry");
+        if let Some(m) = &answer
+            && kind_of(m) == Some("authorized")
+        {
+            let e = self.violation(
+                format!("a token that had been presented while valid was accepted again after its expiry ({})", self.env.key.kind.name()),
+                "an authorization error: the token has expired",
+                json!({"token": token, "exp": exp, "now": c15_jwt::now(), "answer": m,
+                    "server_configured_with": self.env.key.kind.name()}),
+            );
+            self.finish_session(p).await.ok();
+            return Err(e);
+        }
+        self.no_effect("a refused authorization request", "aging").await?;
+        self.finish_session(p).await
+    }
+
     async fn run(&mut self) -> Result<(), Stop> {
         self.reset_store().await?;
+        let aging = if self.idx % 500 == 7 { Some(self.aging_token_first().await?) } else { None };
         let n_kinds = ALL_KINDS.len() as u64;
         let grants_a = gen_grants(&mut self.rng);
         self.steps.push(json!({"grants A": grants_a.describe()}));
@@ -1561,6 +1600,9 @@ impl Scenario<'_> {
         }
         if let Some(c) = bystander {
             self.finish_session(c).await?;
+        }
+        if let Some((token, exp)) = aging {
+            self.aging_token_second(&token, exp).await?;
         }
         Ok(())
     }
